@@ -1,3 +1,111 @@
-From Iodine Require Import Tunnel.
-Theorem C01_placeholder : True. Proof. exact I. Qed.
-Print Assumptions C01_placeholder.
+(* Properties_C01.v -- final statements for property C01 (end-to-end integrity).
+
+   What C01 says: every packet written to a tun device is byte-identical to one read from the peer's
+   tun device, for ALL network behaviours.  For the code as it is this cannot be a theorem of the
+   reassembly logic alone: with 3-bit sequence numbers a long enough burst of loss lets the logic put
+   fragments of two different packets into one buffer, and only zlib's Adler-32 (which the models treat
+   as an oracle) rejects the result.  The statements below therefore are:
+
+     (A) the reassembly logic of BOTH directions, as abstract transition systems with an adversarial
+         network (arbitrary loss, duplication, reordering of every datagram ever sent), delivers only
+         buffers that are the complete in-order fragment sequence of one packet -- for every execution
+         inside the network hypothesis N* (H1 bounded delay <= 3 packets, H2 query freshness <= 2
+         packets, H6 receiver <= 5 packets behind, F16 <= 16 fragments);          [full within N*]
+     (B) the hypotheses are satisfiable and exercised (non-vacuity scripts with loss/dup/reorder);
+     (C) outside N* the statement is false of the logic: concrete witnesses in both directions
+         (C01_*_refuted_outside_Nstar); there integrity rests on the checksum;
+     (D) fragments tile a packet, so an exact tag buffer carries exactly the packet's bytes;
+     (E) ties of the abstract rules to the concrete models Server.v / Client.v (which the
+         correspondence runs tie to iodined.c / client.c);
+     (F) raw UDP mode: a data frame decodes to exactly its payload.
+   Byte transport of one fragment (hostname codec, DNS encode/decode) is C07/C08/C09.
+   C01_partial: the full statement "for all network behaviours" is not proved (and is false without
+   the checksum, see (C)); what is missing is a probabilistic argument about Adler-32. *)
+From Coq Require Import List Arith Bool Lia ZArith NArith.
+From Iodine Require Import Base ProtoUp ProtoUpProofs ProtoDown ProtoDownProofs Server Client ProtoTie.
+From Iodine.Generated Require Import SrcConsts.
+Import ListNotations.
+
+(* (A) upstream: client -> server *)
+Theorem C01_upstream_reassembly_exact_partial :
+  forall s outs, reach s outs -> Forall (exact s) outs.
+Proof. intros s outs H. exact (proj2 (proj2 (proto_up_safe s outs H))). Qed.
+Print Assumptions C01_upstream_reassembly_exact_partial.
+
+(* (A) downstream: server -> client *)
+Theorem C01_downstream_reassembly_exact_partial :
+  forall s outs, dreach s outs -> Forall (dexact s) outs.
+Proof. intros s outs H. exact (proj2 (proj2 (proto_down_safe s outs H))). Qed.
+Print Assumptions C01_downstream_reassembly_exact_partial.
+
+(* (B) *)
+Theorem C01_upstream_nonvacuous :
+  exists s, prun init script_ok [] true = Some (s, [seq_tags 1 3; seq_tags 2 1]) /\ reach s [seq_tags 1 3; seq_tags 2 1].
+Proof. exact proto_up_nonvacuous. Qed.
+Print Assumptions C01_upstream_nonvacuous.
+
+Theorem C01_downstream_nonvacuous :
+  exists s, drun 2 dinit dscript_ok [] true = Some (s, [seq_tags 1 3; seq_tags 2 1; seq_tags 4 1]) /\
+            dreach s [seq_tags 1 3; seq_tags 2 1; seq_tags 4 1].
+Proof. exact proto_down_nonvacuous. Qed.
+Print Assumptions C01_downstream_nonvacuous.
+
+(* (C) *)
+Theorem C01_upstream_refuted_outside_Nstar :
+  exists s outs, reach0 s outs /\ ~ Forall (exact s) outs.
+Proof. exact proto_up_inexact_witness. Qed.
+Print Assumptions C01_upstream_refuted_outside_Nstar.
+
+Theorem C01_downstream_refuted_outside_Nstar :
+  exists s outs, dreach0 8 s outs /\ ~ Forall (dexact s) outs.
+Proof. exact proto_down_inexact_witness. Qed.
+Print Assumptions C01_downstream_refuted_outside_Nstar.
+
+(* (D) *)
+Theorem C01_fragments_tile :
+  forall (d : list N) fs k n, (length d <= n * fs)%nat ->
+  concat (map (frag_bytes d fs) (seq_tags k n)) = d.
+Proof. exact (@exact_buffer_bytes N). Qed.
+Print Assumptions C01_fragments_tile.
+
+(* (E) *)
+Theorem C01_server_rule_tie :
+  forall ipseq ipfrag up_seq up_frag, (ipseq < 8)%N -> (up_seq < 8)%N -> (0 <= ipfrag)%Z ->
+  srv_rule_concrete ipseq ipfrag up_seq up_frag =
+  recv_rule (N.to_nat ipseq) (Z.to_nat ipfrag) (N.to_nat up_seq) (N.to_nat up_frag).
+Proof. exact srv_rule_tie. Qed.
+Print Assumptions C01_server_rule_tie.
+
+Theorem C01_client_rule_tie :
+  forall inseq infrag inlen new_seq new_frag, (inseq < 8)%N -> (new_seq < 8)%N -> (0 <= infrag)%Z ->
+  cli_rule_concrete inseq infrag inlen new_seq new_frag =
+  cli_rule (N.to_nat inseq) (Z.to_nat infrag) (inlen =? 0)%N (N.to_nat new_seq) (N.to_nat new_frag).
+Proof. exact cli_rule_tie. Qed.
+Print Assumptions C01_client_rule_tie.
+
+Theorem C01_client_adopt_tie :
+  forall inseq new_seq, (inseq < 8)%N -> (new_seq < 8)%N ->
+  cli_adopts_concrete inseq new_seq = cli_adopts (N.to_nat inseq) (N.to_nat new_seq).
+Proof. exact cli_adopts_tie. Qed.
+Print Assumptions C01_client_adopt_tie.
+
+Theorem C01_server_downstream_ack_rule :
+  (forall u s f, p_len (u_out u) = 0%N -> process_downstream_ack u s f = u) /\
+  (forall u s f, (Z.of_N (p_seqno (u_out u)) <> s \/ p_fragment (u_out u) <> f) -> process_downstream_ack u s f = u) /\
+  (forall u s f, p_sentlen (u_out u) = 0%N -> process_downstream_ack u s f = u) /\
+  (forall u, let o := u_out u in
+     p_len o <> 0%N -> p_sentlen o <> 0%N -> (p_offset o + p_sentlen o < p_len o)%N ->
+     let u' := process_downstream_ack u (Z.of_N (p_seqno o)) (p_fragment o) in
+     p_fragment (u_out u') = schar_wrap (p_fragment o + 1) /\ p_seqno (u_out u') = p_seqno o /\
+     p_offset (u_out u') = (p_offset o + p_sentlen o)%N /\ p_len (u_out u') = p_len o /\ p_data (u_out u') = p_data o).
+Proof. exact (conj dack_idle (conj dack_mismatch (conj dack_unsent dack_next))). Qed.
+Print Assumptions C01_server_downstream_ack_rule.
+
+(* (F) *)
+Theorem C01_raw_frame_exact :
+  forall unz s now t data,
+  N.of_nat t = c_userid s -> (t < 16)%nat -> (length data <= 4092)%nat -> c_dns s = false ->
+  snd (Client.tunnel_dns unz s now (Server.raw_frame src_RAW_HDR_CMD_DATA t data)) =
+  match unz data with Some p => [CTun p] | None => [] end.
+Proof. exact raw_down_roundtrip. Qed.
+Print Assumptions C01_raw_frame_exact.
